@@ -94,10 +94,10 @@ var props = []*prop{
 	},
 	{
 		ID: "C13", Binary: "simcore", Quick: 8000, Thorough: 200000, RunWall: 60 * time.Second,
-		Variants: []variant{{Scenario: "c13", Weight: 1}},
+		Variants: []variant{{Scenario: "c13", Weight: 24}, {Scenario: "c13m", Weight: 1}},
 		Real:     []string{"tars/selector (BuildStaticWeightList), roundrobin, random, modhash, consistenthash (instrumented from the working tree)"},
 		Stub:     commonStub,
-		Rule:     "one case = one simulated run: one strategy (round-robin, random, mod-hash, consistent-hash; weighted or not) over a universe of 2-6 hosts with tape-drawn weights (positive, zero, negative) and weight types; 1-3 selecting goroutines and 1-2 updating goroutines (Refresh/Add/Remove) interleaved at statement granularity, the invoke/return history checked with porcupine against the member-set model; then a sequential phase checking strict rotation / weighted cycle composition of round-robin on a set reached through a drawn history; distinct = distinct (event-log hash, switch trace hash); non-trivial = at least one preemption",
+		Rule:     "one case = one simulated run: one strategy (round-robin, random, mod-hash, consistent-hash; weighted or not) over a universe of 2-6 hosts with tape-drawn weights (positive, zero, negative) and weight types; 1-3 selecting goroutines and 1-2 updating goroutines (Refresh/Add/Remove) interleaved at statement granularity, the invoke/return history checked with porcupine against the member-set model; then a sequential phase checking strict rotation / weighted cycle composition of round-robin on a set reached through a drawn history; every 25th run is the manager-level variant: 100-300 simulated seconds of calls through a real endpointManager while the scripted registry's list changes (endpoints leave and join, refresh every 0.7-2s) and, in a third of those runs, servers also fail: calls only go to recently listed endpoints, and N consecutive calls over an unchanged N-endpoint rotation hit each endpoint once; distinct = distinct (event-log hash, switch trace hash); non-trivial = at least one preemption",
 	},
 	{
 		ID: "C14", Binary: "simcore", Quick: 4000, Thorough: 100000, RunWall: 60 * time.Second,
